@@ -6,7 +6,7 @@ FAMILY = "configlayer"
 RULE = ("src/main.cpp is compiled into the harness; the real load_configuration runs on JSON documents the checker writes: 1..6 "
         "profiles with random `extends` graphs (chains up to depth 5, self-reference, cycles, a parent that does not exist, a "
         "non-string `extends`, a profile that is not a mapping), optional `environments` (profile selection, direct keys or an "
-        "`overrides` map), --profile / --env, and ten settings (control port, transport port, control token, default / min / "
+        "`overrides` map), --profile / --env, and eleven settings (fetch concurrency -- one of whose spellings, node.fetch.max_parallel, has three components --, control port, transport port, control token, default / min / "
         "max TTL, announce PoW, persistence, wipe passes, key rotation) each set in a random subset of the layers (command "
         "line, environment, selected profile, each ancestor) under a randomly chosen one of its spellings (aliases), values "
         "in range and -- rarely -- out of range or of the wrong type. Oracle (independent of the model: a python reference "
@@ -25,7 +25,8 @@ TOK = {"profiles": 1, "environments": 2, "extends": 3, "announce": 10, "control"
        "overrides": 15, "profile": 16, "security": 17, "storage": 18, "transport": 19, "port": 20, "control_port": 21,
        "transport_port": 22, "token": 23, "default_ttl_seconds": 25, "default_ttl": 26, "min_ttl_seconds": 27, "min_ttl": 28,
        "max_ttl_seconds": 29, "max_ttl": 30, "pow_difficulty": 31, "announce_pow_difficulty": 32, "persistent": 33,
-       "enable_persistent": 34, "wipe_passes": 35, "wipe-passes": 36, "key_rotation_seconds": 37, "key_rotation_interval": 38}
+       "enable_persistent": 34, "wipe_passes": 35, "wipe-passes": 36, "key_rotation_seconds": 37, "key_rotation_interval": 38,
+       "fetch": 39, "fetch_max_parallel": 40, "max_parallel": 41, "retry_hint": 42}
 # setting -> (kind, alias paths in the code's order, range)
 SETTINGS = [
     ("control_port", "int", [["control", "port"], ["network", "control_port"]], (1, 65535)),
@@ -39,6 +40,9 @@ SETTINGS = [
     ("wipe_passes", "int", [["storage", "wipe_passes"], ["storage", "wipe-passes"]], (1, 255)),
     ("rotation", "int", [["node", "key_rotation_seconds"], ["node", "key_rotation_interval"], ["security", "key_rotation_seconds"],
                          ["security", "key_rotation_interval"]], (1, None)),
+    # a setting with a three-component spelling: sections nested below a section must merge key by key too (the top-level
+    # spelling fetch.max_parallel is not generated: the model orders an environment's direct keys by token)
+    ("fetch_parallel", "int", [["node", "fetch_max_parallel"], ["node", "fetch", "max_parallel"]], (0, 65535)),
 ]
 NAMES = ["default", "base", "prod", "lab", "edge", "x1"]
 PROFILE_TOK = {n: 100 + i for i, n in enumerate(NAMES)}
@@ -110,6 +114,8 @@ def generate(rng, tier):
                         val = "oops" if kind != "str" else 5
                     put_path(body, aliases[ai], val)
                     sets[sname] = (ai, val)
+            if rng.random() < 0.3:
+                put_path(body, ["node", "fetch", "retry_hint"], 2)   # touches the nested section without setting anything in it
             profiles[nm] = body
             layer_sets[nm] = sets
         if rng.random() < 0.03:
@@ -133,6 +139,8 @@ def generate(rng, tier):
                         val = rand_value(rng, kind, rg)
                         put_path(target, aliases[ai], val)
                         sets[sname] = (ai, val)
+                if rng.random() < 0.3:
+                    put_path(target, ["node", "fetch", "retry_hint"], 2)
                 envs[en] = (body, sets)
             doc["environments"] = {en: b for en, (b, _) in envs.items()}
             if rng.random() < 0.8:
